@@ -19,6 +19,14 @@ mod attr;
 mod deps;
 mod types;
 
+// Verification hook: in-process driver for the (otherwise unexportable) functions of this
+// proc-macro crate. The driver source lives outside the repository; its path is given at compile
+// time. Compiled only for `cargo test` with `RUSTFLAGS="--cfg ts_rs_verif"`.
+#[cfg(all(test, ts_rs_verif))]
+mod verif {
+    include!(env!("TS_RS_VERIF_MACRO_DRIVER"));
+}
+
 struct DerivedTS {
     crate_rename: Path,
     ts_name: Expr,
